@@ -625,6 +625,32 @@ pub fn tz_child(seed: u64, n: usize) {
             }
             Ev::Panic(m) => println!("FAIL panic:date-trunc :: {} panicked: {}", desc, m.replace('\n', " ")),
         }
+        // hour / minute / second: the start of that local hour / minute / second — not after ts, less than one span
+        // before it, same local date and hour, the smaller local fields zero (zones with :30 / :45 offsets tell local from
+        // UTC truncation apart). An error is accepted only at a DST switch (the local target is ambiguous or missing).
+        let (part2, span) = *rng.pick(&[("hour", 3600i64), ("minute", 60), ("second", 1)]);
+        let e2 = call(Function::TruncateTimestamp, vec![ExpressionTree::Value(Value::String(part2.to_owned())), ExpressionTree::Value(Value::Timestamp(ts))]);
+        checks += 1;
+        let desc2 = format!("date_trunc('{}', {}) [epoch {}]", part2, ts, secs);
+        match eval_real(&[], &e2) {
+            Ev::Ok(Value::Timestamp(r)) => {
+                let fields = r.nanosecond() == 0 && r.date_naive() == ts.date_naive() && r.hour() == ts.hour()
+                    && match part2 { "hour" => r.minute() == 0 && r.second() == 0, "minute" => r.minute() == ts.minute() && r.second() == 0, _ => r.minute() == ts.minute() && r.second() == ts.second() };
+                let near = r <= ts && (ts.timestamp() - r.timestamp()) <= span;
+                // at a switch the same local hour may occur twice; only the field check is demanded there
+                if !fields || !near {
+                    let switch = Local.from_local_datetime(&r.naive_local()).single().is_none() || (ts.offset() != r.offset());
+                    if !switch { println!("FAIL date-trunc-not-local-{}-start :: {} gave {}", part2, desc2, r); }
+                }
+            }
+            Ev::Ok(v) => println!("FAIL date-trunc-not-a-timestamp :: {} gave {}", desc2, v),
+            Ev::Err(_) => {
+                let target = ts.naive_local().with_nanosecond(0).and_then(|t| if part2 == "second" { Some(t) } else { t.with_second(0) }).and_then(|t| if part2 == "hour" { t.with_minute(0) } else { Some(t) });
+                let plain = target.map(|t| Local.from_local_datetime(&t).single().is_some()).unwrap_or(false);
+                if plain { println!("FAIL date-trunc-error-although-start-exists :: {}", desc2); }
+            }
+            Ev::Panic(m) => println!("FAIL panic:date-trunc :: {} panicked: {}", desc2, m.replace('\n', " ")),
+        }
     }
     println!("CHECKS {}", checks);
 }
